@@ -62,7 +62,7 @@ Wraps == {"none", "gzip", "gzipTrunc", "gzipBadMagic", "gzipTwice", "concat", "e
 \* legacy documents: base document name x mutation class x position
 LegacyDocs == {"heap", "heap_v2", "heapprofile", "growth", "gocount", "contention", "mutex", "threadz", "cpu64le", "cpu32be", "javaheap", "javacont"}
 LegacyMuts == {"none", "numNonNumeric", "numHuge", "numNegative", "numEmpty", "dropAt", "dropLine", "dupLine", "truncFrac", "garbageLine", "crlf",
-               "dropMapHeader", "mapGarbage", "addrOverflow", "nstkHuge", "noEndMarker", "wordSwap"}
+               "dropMapHeader", "mapGarbage", "mapAnonHuge", "mapEmpty", "addrOverflow", "nstkHuge", "noEndMarker", "wordSwap"}
 Positions == IF Tier = "thorough" THEN 0..11 ELSE 0..3
 
 VARIABLES pc, muts, wrap, legacy
@@ -86,6 +86,12 @@ Mutate2NoSamples ==
 Wrap == /\ pc \in {"start", "mutated", "mutated2"}
         /\ \E w \in (IF pc = "mutated2" \/ (pc = "mutated" /\ Tier # "thorough") THEN {"none", "gzip"} ELSE Wraps) : wrap' = w
         /\ pc' = "done" /\ UNCHANGED <<muts, legacy>>
+\* tiny documents: valid protobuf wire format that is (almost) nothing - no string table, one scalar, an empty
+\* sub-message, only unknown fields; bare or gzip-wrapped
+Tiny == {"scalar", "emptymsg", "unknownonly", "twoscalars", "emptystring", "onlycomment"}
+TinyDoc == /\ pc = "start"
+           /\ \E t \in Tiny, w \in {"none", "gzip"} : legacy' = [doc |-> "tiny:" \o t, mut |-> "none", pos |-> 0] /\ wrap' = w
+           /\ pc' = "done" /\ UNCHANGED muts
 \* legacy branch
 Legacy == /\ pc = "start"
           /\ \E d \in LegacyDocs, m \in LegacyMuts, p \in Positions : legacy' = [doc |-> d, mut |-> m, pos |-> p]
@@ -93,7 +99,7 @@ Legacy == /\ pc = "start"
 Finish == /\ pc = "done" /\ pc' = "end"
           /\ (Emit => PrintT(ToJson([nodes |-> BaseNodes, top |-> BaseTop, muts |-> muts, wrap |-> wrap, legacy |-> legacy])))
           /\ UNCHANGED <<muts, wrap, legacy>>
-Next == Mutate1 \/ Mutate2 \/ Mutate2NoSamples \/ Wrap \/ Legacy \/ Finish
+Next == Mutate1 \/ Mutate2 \/ Mutate2NoSamples \/ Wrap \/ Legacy \/ TinyDoc \/ Finish
 Spec == Init /\ [][Next]_vars
 
 \* sanity of the generator: mutations address existing nodes; a legacy case carries no protobuf mutation
